@@ -334,6 +334,63 @@ def callback_owner_rule(rep, f):
     rep.floor("C18.d", n, 5)
 
 
+ADOPT_EXEMPT = {
+    "TraverseSchema::fPreprocessedNodes": "a lookup table from DOM node to SchemaInfo; every SchemaInfo is owned by the adopting "
+                                          "fCachedSchemaInfoList / fSchemaInfoList",
+}
+OWNING_CONTAINERS = ("RefVectorOf", "RefStackOf", "RefHashTableOf", "RefHash2KeysTableOf", "RefHash3KeysIdPool", "RefArrayVectorOf", "NameIdPool")
+
+
+def adoption_flag_rule(rep, f):
+    rep.rule("C18.e", "who creates it and stores it only there must have it adopted: a container member (RefVectorOf / RefStackOf / "
+             "RefHashTableOf ...) that receives objects the same class created with `new` — directly in the argument, or through a "
+             "member that holds the freshly created object — is constructed with its adopt-elements flag set; a non-adopting "
+             "container emptied by reset (removeAllElements) or destroyed with elements still on it (a parse that ended early) "
+             "never returns them to the memory manager")
+    cons = {}
+    for x in f.kind("asg"):
+        l = x["lhs"]
+        if l[0] != "f" or len(l) != 2:
+            continue
+        for s_ in sx_walk(x["rhs"]):
+            if isinstance(s_, list) and s_ and s_[0] == "n" and any(t in s_[1] for t in OWNING_CONTAINERS):
+                args = s_[3] if len(s_) > 3 and isinstance(s_[3], list) else []
+                flags = [a[1] for a in args if a in (["i", 0], ["i", 1])]
+                cons.setdefault(l[1], []).append((flags, x["_fn"]["q"], x["_fn"]["file"], x.get("l", 0)))
+    newf = set()
+    for x in f.kind("asg"):
+        l, r = x["lhs"], x["rhs"]
+        while r and r[0] == "cast":
+            r = r[2]
+        if l[0] == "f" and len(l) == 2 and r and r[0] == "n":
+            newf.add(l[1])
+    n = 0
+    seen = set()
+    for x in f.kind("call"):
+        c = x["x"]
+        if c[1].split("::")[-1] not in ("push", "addElement", "put", "enqueue") or not c[2] or c[2][0] != "f" or c[2][1] not in cons or not c[3]:
+            continue
+        a = c[3][-1]
+        while a and a[0] == "cast":
+            a = a[2]
+        if not (a and (a[0] == "n" or (a[0] == "f" and len(a) == 2 and a[1] in newf))):
+            continue
+        F = c[2][1]
+        if F in seen:
+            continue
+        seen.add(F)
+        n += 1
+        for flags, q, fl, l in cons[F]:
+            if not flags:
+                continue          # adoption flag not given literally (template default = adopting)
+            ok = flags[0] == 1 or F in ADOPT_EXEMPT
+            rep.ob("C18.e", F, ok, ("adopting" if flags[0] == 1 else "exempt: " + ADOPT_EXEMPT[F]) if ok else
+                   "%s is constructed non-adopting (%s, line %s) but %s stores %s in it, an object this class created with new: when the "
+                   "container is emptied or destroyed with elements on it they are never released" % (F, q, l, x["_fn"]["q"], sx_str(a)),
+                   "%s:%s" % (fl, l))
+    rep.floor("C18.e", n, 6)
+
+
 def run(rep):
     f = core.library_facts()
     rep.units.update(os.path.relpath(t, core.REPO) for t in f.tus)
@@ -344,6 +401,7 @@ def run(rep):
     manager_rule(rep, f)
     container_manager_rule(rep, f)
     callback_owner_rule(rep, f)
+    adoption_flag_rule(rep, f)
     rep.undecided += ["exactly-once release on every dynamic path (error unwinding with partially built objects)",
                       "leak freedom per document and per way a parse can end",
                       "ownership carried by adoption flags of the container templates (e.g. RefStackOf adoptElems)"]
